@@ -450,6 +450,13 @@ func ord(s *scope, args []pyObject) pyObject {
 func isinstance(s *scope, args []pyObject) pyObject {
 	obj := args[0]
 	typesArg := args[1]
+	// A frozen list or dict (e.g. one imported by subinclude) is still a list or dict.
+	switch o := obj.(type) {
+	case pyFrozenList:
+		obj = o.pyList
+	case pyFrozenDict:
+		obj = o.pyDict
+	}
 
 	var types pyList
 
